@@ -302,11 +302,115 @@ func TestC13(t *testing.T) {
 		"unused-property-no-parameters", "unused-property-no-parameters-macro", "body-nested-no-parameters", "body-typed-any-object", "body-typed-any-array"} {
 		req = append(req, "neg:"+k)
 	}
+	req = append(req, "shared-path-type", "shared-path-type-rejected")
 	h.Require(req...)
 	vlib.Rapid(h, "path-bindings", h.N(12000, 400000), func(t *rapid.T) docCase {
 		doc := vlib.GenDoc(t, vlib.GenOpts{Macros: rapid.Bool().Draw(t, "macros"), PathHeavy: true})
 		return docCase{Doc: doc, Style: genStyle(t, !doc.HasMultilineFreeText())}
 	}, c13Positive)
+	// several resources whose Path directives share one user type (`Path @ids`):
+	// each resource alone decides what the document with all of them must give -
+	// rejected if any one alone is rejected, else accepted with the same entries
+	type sharedCase struct {
+		TypeProps []string   `json:"typeProps"`
+		Params    [][]string `json:"params"`
+		Forms     []string   `json:"forms"`
+		TypeLast  bool       `json:"typeLast"`
+	}
+	vlib.Rapid(h, "shared-path-type", h.N(1500, 60000), func(t *rapid.T) sharedCase {
+		names := []string{"a", "b", "c"}
+		c := sharedCase{TypeLast: rapid.Bool().Draw(t, "typeLast")}
+		c.TypeProps = rapid.SliceOfNDistinct(rapid.SampledFrom(names), 1, 3, rapid.ID[string]).Draw(t, "typeProps")
+		n := rapid.IntRange(2, 3).Draw(t, "urls")
+		for i := 0; i < n; i++ {
+			if rapid.IntRange(0, 2).Draw(t, "likeType") > 0 {
+				c.Params = append(c.Params, rapid.Permutation(c.TypeProps).Draw(t, "params"))
+			} else {
+				c.Params = append(c.Params, rapid.SliceOfNDistinct(rapid.SampledFrom(names), 1, 3, rapid.ID[string]).Draw(t, "params"))
+			}
+			c.Forms = append(c.Forms, rapid.SampledFrom([]string{"type", "typebody", "typebody", "literal", "none"}).Draw(t, "form"))
+		}
+		return c
+	}, func(c sharedCase, info *vlib.Info) *vlib.Failure {
+		typ := "TYPE @ids\n{"
+		for i, n := range c.TypeProps {
+			if i > 0 {
+				typ += ", "
+			}
+			typ += fmt.Sprintf("\"%s\": %d", n, 10+i)
+		}
+		typ += "}\n"
+		url := func(i int) (string, string) {
+			path := fmt.Sprintf("/u%d", i)
+			lit := "{"
+			for j, n := range c.Params[i] {
+				path += "/{" + n + "}"
+				if j > 0 {
+					lit += ", "
+				}
+				lit += fmt.Sprintf("\"%s\": %d", n, 100*i+j)
+			}
+			lit += "}"
+			s := "URL " + path + "\n"
+			switch c.Forms[i] {
+			case "type":
+				s += "  Path @ids\n"
+			case "typebody":
+				s += "  Path\n    @ids\n"
+			case "literal":
+				s += "  Path\n  " + lit + "\n"
+			}
+			return s + "  GET\n    200 any\n", "http GET " + path
+		}
+		mk := func(body string) string {
+			if c.TypeLast {
+				return "JSIGHT 0.3\n" + body + typ
+			}
+			return "JSIGHT 0.3\n" + typ + body
+		}
+		all, ntype := "", 0
+		for i := range c.Params {
+			u, _ := url(i)
+			all += u
+			if c.Forms[i] == "type" || c.Forms[i] == "typebody" {
+				ntype++
+			}
+		}
+		info.Class("shared-path-type")
+		info.NonTrivial = ntype >= 2
+		multi := vlib.Run(vlib.Single(mk(all)))
+		anyRejected := false
+		for i := range c.Params {
+			u, key := url(i)
+			solo := vlib.Run(vlib.Single(mk(u)))
+			if !solo.Accepted {
+				anyRejected = true
+				continue
+			}
+			if !multi.Accepted {
+				continue
+			}
+			cs, e1 := vlib.ParseCatalog(solo.JSON)
+			cm, e2 := vlib.ParseCatalog(multi.JSON)
+			if e1 != nil || e2 != nil {
+				return vlib.Failf("harness", "undecodable catalog")
+			}
+			a, b := cs.Obj("interactions").Get(key), cm.Obj("interactions").Get(key)
+			if a == nil || vlib.Canon(a) != vlib.Canon(b) {
+				return vlib.Failf("shared-path-type: entry-differs", "the entry %q differs between the document with this resource alone and the document with all resources\n--- alone:\n%s\n--- together:\n%s\n--- document:\n%s", key, vlib.Canon(a), vlib.Canon(b), mk(all))
+			}
+		}
+		if anyRejected {
+			info.Class("shared-path-type-rejected")
+		}
+		if anyRejected && multi.Accepted {
+			return vlib.Failf("shared-path-type: fault-accepted", "a resource that is rejected alone is accepted beside other resources whose Path directive uses the same type\n%s", mk(all))
+		}
+		if !anyRejected && !multi.Accepted {
+			return vlib.Failf("shared-path-type: valid-rejected", "every resource alone is accepted, all together are rejected: %v\n%s", multi.Err, mk(all))
+		}
+		return nil
+	})
 	// parameter names: a segment is a parameter when it starts with '{' and ends
 	// with '}' (and is longer than one character); the name is what lies between,
 	// braces included
